@@ -34,6 +34,12 @@ func tkey(v any) string {
 		}
 		return "Bf"
 	}
+	switch x := v.(type) { // integers beyond 2^53 are not exact as float64: keep them apart
+	case int, int64, uint, uint64:
+		if i, _ := toI(x); i >= 1<<53 || i <= -(1<<53) {
+			return "I" + strconv.FormatInt(i, 10)
+		}
+	}
 	if f, ok := toF(v); ok {
 		return "F" + strconv.FormatFloat(f, 'g', -1, 64)
 	}
